@@ -19,6 +19,32 @@ type caseC06 struct {
 	Alias bool   `json:"alias,omitempty"` // the operand is the receiver itself
 	NilT  bool   `json:"nil_t,omitempty"`
 	U     uint64 `json:"u,omitempty"`
+	// Prev: the same operation first runs on other objects, with the receiver value replaced by this look-alike of S.
+	Prev *SV `json:"prev,omitempty"`
+}
+
+// execOp runs op without looking at the result (the "previous call" of a case).
+func execOp(op string, s, arg *secp256k1.Scalar, u uint64) {
+	switch op {
+	case "add":
+		s.Add(arg)
+	case "sub":
+		s.Subtract(arg)
+	case "mul":
+		s.Multiply(arg)
+	case "square":
+		s.Square()
+	case "invert":
+		s.Invert()
+	case "pow":
+		s.Pow(arg)
+	case "setuint64":
+		s.SetUInt64(u ^ 1)
+	case "set":
+		s.Set(arg)
+	case "copy":
+		_ = s.Copy()
+	}
 }
 
 // the multi-limb carry chains live in mul and square: they get a larger share of the cases
@@ -53,6 +79,10 @@ var c06 = gen.Register(&gen.Check[caseC06]{
 		if c.Op == "pow" && rapid.IntRange(0, 3).Draw(t, "smallexp") == 0 {
 			c.T = SV{Hex: gen.H(big.NewInt(int64(rapid.IntRange(0, 5).Draw(t, "e"))))}
 		}
+		if gen.Chance(t, "prev", 1, 4) {
+			r := RelatedSV(t, c.S)
+			c.Prev = &r
+		}
 		return c
 	},
 	Fixed: func() []caseC06 {
@@ -86,7 +116,7 @@ var c06 = gen.Register(&gen.Check[caseC06]{
 		}
 		return out
 	},
-	Required: []string{"mont-operand", "alias", "nil", "wrap:add", "wrap:sub", "op:invert", "op:pow"},
+	Required: []string{"mont-operand", "alias", "nil", "wrap:add", "wrap:sub", "op:invert", "op:pow", "after-look-alike"},
 	Run: func(c caseC06, o *gen.Obs) error {
 		hostileCaller()
 		s, t := c.S.Build(), c.T.Build()
@@ -103,6 +133,10 @@ var c06 = gen.Register(&gen.Check[caseC06]{
 		o.ClassIf(c.Alias, "alias")
 		o.ClassIf(c.NilT, "nil")
 		o.NonTrivialIf(vs.Cmp(bigOne) > 0 || vt.Cmp(bigOne) > 0 || c.U > 1)
+		if c.Prev != nil {
+			execOp(c.Op, c.Prev.Build(), c.T.Build(), c.U)
+			o.Class("after-look-alike")
+		}
 		t0 := t.S
 		var (
 			got  *secp256k1.Scalar
